@@ -64,6 +64,8 @@ def run(ctx, rep):
     F = ctx.facts()
     v = vmx.vmx(ctx)
     rep.rule('R13.1', 'no hidden copies in the value-moving opcodes')
+    rep.rule('R13.10', 'the text of an array shows every element, every time: no path writes an array without reading its elements, no turn of the element loop skips the element (a shared array is written in full wherever it occurs)')
+    _shared.check_array_text_complete(ctx, rep, 'R13.10')
     rep.rule('R13.2', 'sibling agreement / unit consistency of the four index routines')
     rep.rule('R13.3', 'errors before effects in index assignment')
     rep.rule('R13.4', 'lengte: characters for strings, elements for arrays')
